@@ -97,6 +97,13 @@ WhyObjects(doc, rd, bytes) ==
                 THEN DiffKinds(doc.objs[i].val, rd.view[doc.objs[i].num].val) ELSE {"generation"}]
      : i \in {i \in 1..Len(doc.objs) : doc.objs[i].num \in BadObjects(doc, rd)}}
 
+\* objects (and trailer entries) in which an integer token that fits i64 was loaded as a real (PdfObjects!IntKept)
+IntAsReal(doc, rd) ==
+    {doc.objs[i].num : i \in {i \in 1..Len(doc.objs) :
+        /\ ~IsBookObj(doc.objs[i].val) /\ Has(rd.view, doc.objs[i].num)
+        /\ ~IntKept(doc.objs[i].val, rd.view[doc.objs[i].num].val)}}
+    \cup (IF \E key \in (DOMAIN doc.trailer \cap DOMAIN rd.trailer) \ BookKeys : ~IntKept(doc.trailer[key], rd.trailer[key]) THEN {0} ELSE {})
+
 \* verdict of a Load of `bytes`, whose strict reading is rd
 JudgeLoad(doc, res, rd, bytes) ==
     IF res # "ok" THEN [v |-> "load-failed", res |-> res]
@@ -104,6 +111,7 @@ JudgeLoad(doc, res, rd, bytes) ==
     ELSE IF ExtraInView(doc, rd) # {} THEN [v |-> "load-object-missing", nums |-> ExtraInView(doc, rd)]
     ELSE IF BadObjects(doc, rd) # {} THEN
         [v |-> "load-object-differs", nums |-> BadObjects(doc, rd), why |-> WhyObjects(doc, rd, bytes)]
+    ELSE IF IntAsReal(doc, rd) # {} THEN [v |-> "load-int-as-real", nums |-> IntAsReal(doc, rd)]
     ELSE IF ExtraInDoc(doc, rd) # {} THEN [v |-> "load-extra-object", nums |-> ExtraInDoc(doc, rd)]
     ELSE IF ~TrailerMatches(doc, rd) THEN
         [v |-> "load-trailer-differs", verbatim |-> VerbatimEolExplains(doc, bytes),
